@@ -64,7 +64,8 @@ add("C20", "model_checking", "ApiControl.tla gives every API action a response c
     "and compares the real outcome with the model's Step (drift)", API_NOTE, "TLA+ model of the API control surface (TLC) + trace validation of the real handlers over model-generated and random action sequences", "api", "5/C20")
 add("C18", "model_checking", "same rig and model as C20 with the C18 guarantees (create/rename never overwrite, invalid save changes nothing, rename carries definition + history, delete removes only its own DAG, other DAGs untouched); "
     "plus DagStore.tla (a series of saves at system-call grain over file contents, crash anywhere, all-or-nothing invariant) and a ptrace kill sweep of the real UpdateSpec at every system call and torn write, each followed by a further save; "
-    "plus DagStoreConc.tla (two simultaneous saves over names bound to inodes) with all interleavings at the gate of the verif build trace-validated on the real DAG store and a free-running pair of savers with a reader", API_NOTE + "; ptrace supervisor for the save sweep",
+    "plus DagStoreConc.tla (two simultaneous saves over names bound to inodes) with all interleavings at the gate of the verif build trace-validated on the real DAG store and a free-running pair of savers with a reader; "
+    "plus DagNames.tla (two creates and a rename aimed at one name: check-then-act) with TLC-simulated schedules trace-validated through the gates after the existence checks", API_NOTE + "; ptrace supervisor for the save sweep",
     "TLA+ models (TLC) + trace validation of the real handlers + ptrace kill-point enumeration of a save, all judged by TLC", "api", "5/C18")
 
 add("C12", "model_checking", "NodeIO.tla models one step's writer plumbing across attempts (setup, writer routing, bufio flushing, capture pipe, teardown, done flag, old goroutine's deferred teardown) and TLC proves 'log on disk = what the last attempt printed' and 'the step finishes' for behaviours without the teardown race; "
